@@ -221,7 +221,8 @@ func Run(sc *Scenario) *History {
 			defer func() { rt.Release(); done <- i }()
 			// distinct start instants: two tasks that are released "at the same time" are ordered
 			// by the scenario (task id), never by the Go scheduler
-			time.Sleep(time.Duration(tk.StartNs + 1 + int64(tk.ID%1000)*3))
+			now0 := rt.Now()
+			time.Sleep(time.Duration(rt.AlignAt(rt.SlotOf(tk.ID), now0+tk.StartNs+1) - now0))
 			for j := range tk.Ops {
 				if rt.Stopped() {
 					return
